@@ -94,6 +94,7 @@ def run(tier, seed):
         chk.seen(("hist", tuple(h)))
     chk.sample({"history_of_assertion_indices": hists[0], "counters_of_assertions": ctrs})
     B.close()
+    fw.env_invariance(chk, "auth")          # the same seeded cases under -O / -OO, warnings-as-errors, other TZ / locale, a private CA bundle
     return fw.finish(chk, ob, br, TRUSTED,
                      ["raw record inputs consist of bytes (cred_wf); the RP stores exactly the reported counter after each success"],
                      RULE, "coqc -Q . PW Properties/C07.v; thorough: coqchk -o")
